@@ -4,7 +4,7 @@ use crate::ir;
 use crate::ir::DocIR;
 use emmylua_parser::{
     LuaAstNode, LuaAstToken, LuaComment, LuaDocDescription, LuaDocDescriptionOwner, LuaDocFieldKey,
-    LuaDocTag, LuaDocType, LuaSyntaxId, LuaSyntaxToken, LuaTokenKind,
+    LuaDocTag, LuaDocType, LuaSyntaxId, LuaSyntaxKind, LuaSyntaxToken, LuaTokenKind,
 };
 use std::collections::HashMap;
 
@@ -555,6 +555,14 @@ fn extract_columns(
                 .map(|n| n.get_name_text().to_string())
                 .unwrap_or_default();
             let mut class_name = name.clone();
+            // attributes such as `(exact)` / `(partial)` stand between the tag and the name
+            if let Some(flag) = t
+                .syntax()
+                .children()
+                .find(|child| child.kind() == LuaSyntaxKind::DocTypeFlag.into())
+            {
+                class_name = format!("{} {}", format_node_tokens(plan, &flag), class_name);
+            }
             if let Some(g) = t.get_generic_decl() {
                 class_name.push_str(&format_node_tokens(plan, g.syntax()));
             }
